@@ -17,7 +17,7 @@ from typing import Any, Dict, List, Optional, Tuple
 
 from ..core import PropCheck
 
-SYNC_OPS = ["enter_context", "push_mgr", "push_fn", "push_bound", "callback"]
+SYNC_OPS = ["enter_context", "push_mgr", "push_fn", "push_bound", "push_builtin_bound", "callback"]
 ASYNC_OPS = ["enter_async_context", "push_async_exit_mgr", "push_async_exit_fn", "push_async_callback"]
 
 
@@ -181,6 +181,14 @@ class Builder:
                 h = Holder()
                 op.append(self.tag(h, "m"))
                 st.push(h.my_exit)
+            elif name == "push_builtin_bound":
+                # the __exit__ of a C-implemented manager (a lock): a bound method with __self__ but no __func__
+                import threading as _th
+
+                lk = _th.Lock()
+                lk.acquire()
+                op.append(self.tag(lk, "m"))
+                st.push(lk.__exit__)
             elif name in ("callback", "push_async_callback"):
                 if name == "callback":
                     def cb(*a, **kw):
@@ -193,7 +201,8 @@ class Builder:
         return st
 
 
-METHOD = {"enter_context": "enter_context", "push_mgr": "enter_context", "push_fn": "push", "push_bound": "push", "callback": "callback",
+METHOD = {"enter_context": "enter_context", "push_mgr": "enter_context", "push_fn": "push", "push_bound": "push", "push_builtin_bound": "enter_context",
+          "callback": "callback",
           "enter_async_context": "enter_async_context", "push_async_exit_mgr": "enter_async_context",
           "push_async_exit_fn": "push_async_exit", "push_async_callback": "push_async_callback"}
 
